@@ -356,6 +356,14 @@ def explore(body, max_paths=10**7, stop_on_failure=True, first_prefix=None, soft
       E.path_checked = False
     except PathLimit:
       pass
+    except Exception as ex:
+      name = _scales_exception(ex)
+      if name is None: raise
+      # an exception escaping from the code under test: a failed (implicit) assertion
+      E.flush_checks()
+      if E._mine() and E._check() == z3.sat:
+        E.failures.append(Failure(name, E.model_values(E.s.model()), list(E.trace), detail=repr(ex)[:300]))
+      E.path_checked = True
     except Pruned:
       E.stats['pruned'] = E.stats.get('pruned', 0) + 1
       E.path_checked = False; E.path_covers = set()
@@ -393,4 +401,22 @@ def run_concrete(body, values):
     body()
   except Infeasible:
     E.concrete_log.append(('__assume__', False))
+  except Exception as ex:
+    name = _scales_exception(ex)
+    if name is None: raise
+    E.concrete_log.append((name, False))
   return E
+
+
+def _scales_exception(ex):
+  """'unexpected-exception:<Type>' if the exception was raised by code under /repo/scales (directly
+  or inside a stub it called), None if it comes from the harness itself"""
+  import traceback, os
+  repo = os.environ.get('VERIF_REPO', '/repo') + '/scales/'
+  frames = traceback.extract_tb(ex.__traceback__)
+  if not frames: return None
+  inner = frames[-1].filename
+  if inner.startswith(repo): return 'unexpected-exception:%s' % type(ex).__name__
+  if '/symex/' in inner and any(f.filename.startswith(repo) for f in frames):
+    return 'unexpected-exception:%s' % type(ex).__name__
+  return None
